@@ -343,7 +343,14 @@ PROPS = {
                  "Loc-RIB path with equal path id and attributes, no Loc-RIB path missing) and with the UPDATE octets the peers sent "
                  "(BGP4MP peer/local AS, address, payload re-parsed under the sub-type's AS4/ADD-PATH meaning). Embedded BGP "
                  "messages of the codec units come from the C04 generators. Zebra bodies whose request and reply layouts differ by "
-                 "protocol design are compared at header level only. Daemon-emitted BMP is not covered (see DESIGN 9.2)."),
+                 "protocol design are compared at header level only. Daemon-emitted BMP (TestVerifC19_daemon_bmp): a TCP listener on the "
+                 "loopback served outside the bubble is the station of a BgpServer in virtual time; peers come up before and after "
+                 "AddBmp, announce, withdraw, go down and come back; after DeleteBmp the stream is cut with SplitBMP and read like a "
+                 "station reads it (decoding options per peer from the OPENs of its Peer Up and the A flag): Initiation first, "
+                 "Termination last, a Peer Up per session with the peer's identity, the session's local address/port and the OPEN "
+                 "octets exchanged, a Peer Down per lost session, and the replay of each peer's pre-policy / post-policy Route "
+                 "Monitoring stream (and of the Loc-RIB stream) equals the Adj-RIB-In / accepted routes / best paths ListPath reports. "
+                 "Route mirroring and the statistics counters' values are not compared."),
         "technique": "property-based testing (rapid) with recipe generators: codec round trip + decode-safety oracles on guarded buffers; coverage-guided native fuzzing (thorough tier) with the same oracle",
         "rule": ("non-trivial when a body decoder is reached (header parses, declared body present) or the constructed message embeds a "
                  "BGP message / has at least two entries; distinct by case hash"),
@@ -355,6 +362,7 @@ PROPS = {
             {"pkg": "pkg/zebra", "test": "TestVerifC19_zebra", "quick": (8, 3000), "thorough": (16, 300000)},
             {"pkg": "pkg/packet/bfd", "test": "TestVerifC19_bfd", "quick": (4, 10000), "thorough": (16, 1000000)},
             {"pkg": S, "test": "TestVerifC19_daemon_mrt", "quick": (4, 250), "thorough": (16, 20000)},
+            {"pkg": S, "test": "TestVerifC19_daemon_bmp", "quick": (8, 150), "thorough": (16, 10000)},
             {"pkg": "pkg/packet/mrt", "kind": "fuzz", "test": "FuzzVerifC19_mrt", "fuzz_seconds": 240},
             {"pkg": "pkg/packet/bmp", "kind": "fuzz", "test": "FuzzVerifC19_bmp", "fuzz_seconds": 240},
             {"pkg": "pkg/packet/rtr", "kind": "fuzz", "test": "FuzzVerifC19_rtr", "fuzz_seconds": 120},
